@@ -493,6 +493,161 @@ def finish(prop, tier, seed, mode, pr, binary, th, lines, problems, known, t0):
     return 0
 
 
+# ----------------------------------------------------------------- C15: race detector runs (L1)
+
+RACE_SPLIT = re.compile(r'^==================$', re.M)
+FRAME = re.compile(r'^  (\S+)\(\)$', re.M)
+
+
+def parse_races(text):
+    """Returns a list of (key, report) for race reports that involve library code."""
+    out, harness = [], 0
+    for blk in RACE_SPLIT.split(text):
+        if 'WARNING: DATA RACE' not in blk:
+            continue
+        parts = re.split(r'\n\n', blk.strip())
+        stacks = [p for p in parts if re.match(r'^(WARNING: DATA RACE\n)?(Read|Write|Previous read|Previous write|Atomic|Previous atomic)', p.strip())]
+        tops = []
+        for st in stacks[:2]:
+            frames = FRAME.findall(st)
+            lib = [f for f in frames if f.startswith('github.com/relab/gorums.') or f.startswith('gorumsim/zsvc.')]
+            tops.append(lib[0] if lib else None)
+        if not any(tops):
+            harness += 1
+            if os.environ.get('VERIF_DEBUG_RACE'):
+                print(blk[:3000])
+            continue
+        names = sorted((t or 'non-library').replace('github.com/relab/gorums.', '').replace('gorumsim/zsvc.', 'generated:') for t in tops)
+        out.append(('~'.join(names), blk.strip()))
+    return out, harness
+
+
+def run_race_seed(binary, profile, tier, seed, tmp):
+    env = goenv()
+    outf = os.path.join(tmp, 'r%d.jsonl' % seed)
+    env.update(SIM_PROFILE=profile, SIM_TIER=tier, SIM_SEED0=str(seed), SIM_COUNT='1', SIM_MODE='L1race', SIM_SAMPLE_EVERY='1',
+               GORACE='halt_on_error=0', GOMAXPROCS='4', SIM_OUT=outf)
+    try:
+        p = subprocess.run([binary, '-test.run', '^TestSim$', '-test.timeout', '10m', '-test.cpu', '4'], env=env, stdout=subprocess.PIPE, stderr=subprocess.STDOUT, text=True, timeout=180, cwd=tmp)
+    except subprocess.TimeoutExpired:
+        return seed, None, [], 0, 'timeout'
+    line = None
+    if os.path.exists(outf):
+        for ln in open(outf):
+            try:
+                line = json.loads(ln)
+            except Exception:
+                pass
+        os.remove(outf)
+    races, harness = parse_races(p.stdout)
+    problem = None
+    if line is None:
+        problem = 'no result line; tail: ' + p.stdout[-1500:]
+    return seed, line, races, harness, problem
+
+
+def run_race_check(prop, tier, seed):
+    from concurrent.futures import ThreadPoolExecutor
+    t0 = time.time()
+    pr = profiles.PROFILES[prop]
+    try:
+        bdir, binary, th = build('L1race')
+    except BuildError as e:
+        die(2, 'BUILD-ERROR\n' + str(e))
+    nruns = pr[tier]['runs']
+    budget = pr[tier]['budget_s']
+    seeds = [1000003 + i for i in range(nruns // 2)] + [seed * 7919 * 1000003 + 17 + i for i in range(nruns - nruns // 2)]
+    tmp = tempfile.mkdtemp(prefix='race-', dir=bdir)
+    lines, found, problems, harness_total = [], {}, [], 0
+    deadline = time.time() + budget
+    def job(s):
+        if time.time() > deadline:
+            return None
+        return run_race_seed(binary, prop, tier, s, tmp)
+    with ThreadPoolExecutor(max_workers=max(1, WORKERS // 2)) as ex:
+        for r in ex.map(job, seeds):
+            if r is None:
+                continue
+            s, line, races, harness, problem = r
+            harness_total += harness
+            if problem:
+                problems.append('seed %d: %s' % (s, problem))
+            if line:
+                lines.append(line)
+            for key, report in races:
+                found.setdefault(key, []).append((s, report, line))
+    known, _ = load_known()
+    reported, known_seen = [], {}
+    os.makedirs(os.path.join(VERIF, 'replays'), exist_ok=True)
+    for key, xs in sorted(found.items()):
+        v = dict(Property=prop, Rule='data-race', Key=key)
+        k = is_known(v, known)
+        if k:
+            known_seen[key] = len(xs)
+            print('KNOWN-FINDING: property=%s rule=data-race key=%s seen=%d first-seed=%d %s' % (prop, key, len(xs), xs[0][0], k['text']))
+            continue
+        s0, report, line = xs[0]
+        path = os.path.join(VERIF, 'replays', '%s-data-race-%d.json' % (prop, s0))
+        rf = (line or {}).get('Replay') or dict(Seed=s0, Profile=prop, Tier=tier)
+        rf.update(Property=prop, Rule='data-race', Key=key, Detail=report[:6000], Mode='L1race', TreeHash=th, Seed=s0, Profile=prop, Tier=tier)
+        json.dump(rf, open(path, 'w'), indent=1)
+        print('VIOLATION property=%s replay=%s' % (prop, path))
+        print('  rule=data-race key=%s seeds=%s' % (key, [x[0] for x in xs[:6]]))
+        print('\n'.join('    ' + l for l in report.splitlines()[:24]))
+        reported.append(dict(rule='data-race', key=key, seed=s0, replay=path))
+    agg = summarize(lines)
+    wall = time.time() - t0
+    samples = []
+    for l in lines[:3]:
+        r = l.get('Replay') or {}
+        samples.append(dict(seed=l['Seed'], config=r.get('Config'), program=r.get('Program'), steps=l['Steps'], calls=l['Calls']))
+    ev = dict(property_id=prop, tier=tier, seed=seed, level='exploration', wall_s=round(wall, 2), violations=len(reported),
+              assumptions=['the Go race detector is sound for the accesses that execute (happens-before based); the dsync redirection (TryLock polling) creates no extra happens-before edges',
+                           'harness tasks are not scheduled one at a time in this mode, so harness synchronisation does not order library accesses'],
+              coverage=dict(evaluations=len(lines), distinct_nontrivial=agg['distinct_nontrivial'],
+                            rule='one evaluation = one simulated run of the widest swarm profile in its own OS process under -race (L1 mode: simulated network, clock, puppets, faults; goroutine interleaving left to the Go runtime, 4 Ps). distinct = distinct schedule signature of the driver actions; non-trivial as for the other checks.',
+                            samples=samples or [dict(note='none')], exhaustive=False, runs_per_hour=int(len(lines) / wall * 3600) if wall > 0 else 0,
+                            steps_total=agg['steps'], calls_total=agg['calls'], sim_time_s_total=round(agg['sim_ms'] / 1000.0, 1), faults_fired=agg['faults'], network=agg['net'], probes=agg['probes'],
+                            race_reports_with_library_frames={k: len(v) for k, v in found.items()}, harness_only_race_reports=harness_total,
+                            known_findings_seen=known_seen, problems=problems[:5], mode='L1race', tree_hash=th,
+                            components_real=COMPONENTS_REAL, components_stub=[c for c in COMPONENTS_STUB if 'goroutine scheduling inside gorums' not in c] + ['sync.Mutex/RWMutex/Once waits of gorums (dsync: real primitives, TryLock polling on the fake clock)']))
+    shutil.rmtree(tmp, ignore_errors=True)
+    if not lines:
+        print('NO-RUNS')
+        for p_ in problems[:5]:
+            print(p_)
+        return 2
+    write_evidence(prop, ev)
+    print('%s %s: %d race-detector runs, %d library race classes, %d harness-only reports, %.1f s wall' % (prop, tier, len(lines), len(found), harness_total, wall))
+    if reported:
+        return 1
+    if harness_total:
+        print('PROBLEM: %d race reports without any library frame (harness race?)' % harness_total)
+    if len(problems) > len(seeds) // 10:
+        for p_ in problems[:5]:
+            print('PROBLEM ' + p_[:800])
+        return 2
+    return 0
+
+
+def replay_race(path):
+    rf = json.load(open(path))
+    bdir, binary, th = build('L1race')
+    tmp = tempfile.mkdtemp(prefix='race-', dir=bdir)
+    seen = False
+    for i in range(6):
+        s, line, races, harness, problem = run_race_seed(binary, rf['Profile'], rf.get('Tier', 'quick'), rf['Seed'], tmp)
+        for key, report in races:
+            if key == rf['Key']:
+                seen = True
+                print(report)
+        if seen:
+            break
+    shutil.rmtree(tmp, ignore_errors=True)
+    print('REPLAY-REPRODUCED property=%s rule=data-race key=%s' % (rf['Property'], rf['Key']) if seen else 'REPLAY-NOT-REPRODUCED (a race report depends on the Go runtime schedule; 6 attempts)')
+    return 1 if seen else 0
+
+
 # ----------------------------------------------------------------- selftest
 
 def selftest(nseeds, profile='C01'):
@@ -582,6 +737,8 @@ def main(argv):
         try:
             rf = json.load(open(argv[1]))
             mode = rf.get('Mode') or 'L2'
+            if mode == 'L1race':
+                return replay_race(argv[1])
             bdir, binary, th = build(mode)
         except BuildError as e:
             die(2, 'BUILD-ERROR\n' + str(e))
